@@ -375,6 +375,11 @@ func (e *Engine) cellable(v ssa.Value, seen map[ssa.Value]bool) bool {
 				return false
 			}
 		case *ssa.MakeClosure:
+			// a closure that is stored, returned or boxed may be run by code that is not executed
+			// here: its captured variables then have to live on the heap
+			if closureEscapes(r) {
+				return false
+			}
 			// find the free variable it binds to and check its uses
 			fn := r.Fn.(*ssa.Function)
 			for i, b := range r.Bindings {
@@ -2541,4 +2546,23 @@ func (e *Engine) equalitiesOf(gs []*Term) [][2]*Term {
 		}
 	}
 	return out
+}
+
+// closureEscapes: the closure value is used other than as the callee or a direct argument of a
+// call (or defer/go).
+func closureEscapes(mc *ssa.MakeClosure) bool {
+	refs := mc.Referrers()
+	if refs == nil {
+		return false
+	}
+	for _, r := range *refs {
+		switch x := r.(type) {
+		case ssa.CallInstruction:
+			_ = x
+		case *ssa.DebugRef:
+		default:
+			return true
+		}
+	}
+	return false
 }
